@@ -625,6 +625,11 @@ func (fx *Fx) chanRecv(st *State, ch Val, n ast.Node) (Val, Val) {
 	}
 	ok := c.freshConst("rok", "Bool")
 	rv := Val{T: v, S: es, GT: el}
+	if isNamed(el, "time", "Time") {
+		// clocks promise a lower bound for what their channels deliver (IClock.Until / After)
+		// (assumed of every IClock: each receive from a clock channel yields a time >= the channel's bound)
+		st.assume(fmt.Sprintf("(>= %s (select %s %s))", v, st.heap("CLB", "(Array Int Int)"), ch.T))
+	}
 	// a value received from a closed, drained channel is the zero value
 	st.assume(fmt.Sprintf("(=> (not %s) (= %s %s))", ok, v, c.zero(el)))
 	st.logEvent(evTerm("Recv", ch.T, c.box(rv), "", ""))
